@@ -1,12 +1,19 @@
 from pyvc.runner import register_modules
 
-register_modules("C07", "bounded.C07_api")
+register_modules("C07", "contracts.C07_comm", "bounded.C07_api")
 LEVEL = "other"
-EXPLANATION = ("Finite-domain contract: all (role, communication state, event) steps of the establish-communications model are "
-               "executed on the real handlers with virtual timers and compared with the E30 clauses; the retry cycle is iterated. "
-               "The per-step result extends to every history because the handlers read only the communication state, the link "
-               "state and the pending timers.")
+EXPLANATION = ("(VC) the real message gate GemHandler._on_message_received (with _is_commack_accepted and the send_response wrapper inlined), one case per "
+               "communication state and role, ALL stream/function/system/W-bit values, any COMMACK the peer's S1F14 denotes (or an undecodable body) and any "
+               "code returned by on_commack_requested: COMMUNICATING is entered only by an S1F14 with COMMACK 0 in WAIT_CRA or by an inbound S1F13 answered "
+               "with COMMACK 0; a refused or undecodable S1F14 goes to WAIT_DELAY; S1F13 is answered by exactly one S1F14 (request's system bytes, that code, "
+               "the role's MDLN list); nothing reaches the stream/function callbacks unless COMMUNICATING, where every message does exactly once; "
+               "GemHandler.on_connection_closed leaves COMMUNICATING on link loss; GemHandler._on_communicating starts the attempt only from NOT_COMMUNICATING. "
+               "(FD) the assumed contracts of the five CommunicationStateMachine transitions are validated on real handlers from every state; every "
+               "(role, state, event) step incl. T3 / delay timer expiry (virtual timers) and the retry loop are executed on real handlers.")
 ASSUMPTIONS = [
+    "call-outs assumed at call sites of the VC units: CommunicationStateMachine transitions (validated by FD), on_commack_requested (any code), catalogue lookup / construction of S1F14, "
+    "Protocol.send_response (records the reply), StreamsFunctions.decode of an inbound S1F14 (the COMMACK its body denotes, or raises), SecsHandler._handle_stream_function (counted; its behaviour is C08)",
+
     "oracle: DESIGN.md Appendix A.2 (A-ORACLE)", "harness: MemConnection, SyncDispatcher, VirtualTimer",
     "stale S1F14 matching is not judged",
 ]
